@@ -3,11 +3,11 @@
 # Applies a seeded change to /repo, runs the property's check, reverts.
 # Exit status: 0 = the check reported a VIOLATION (detected), 1 = not detected, 2 = patch/harness problem.
 set -u
-prop=$1; patch=$2; tier=${3:-quick}
+prop=$1; patch=$2; tier=${3:-quick}; shift; shift; [ $# -gt 0 ] && shift
 cd /repo || exit 2
 if [ -n "$(git status --porcelain)" ]; then echo "seedtest: /repo is not clean" >&2; exit 2; fi
 git apply "$patch" || { echo "seedtest: patch does not apply" >&2; exit 2; }
-out=$(cd /verif && ./bin/check "$prop" --tier "$tier" 2>&1); rc=$?
+out=$(cd /verif && ./bin/check "$prop" --tier "$tier" "$@" 2>&1); rc=$?
 git checkout -q -- .
 echo "$out" | grep -E "^VIOLATION|^  key|^OK|^KNOWN|harness|check:" | cut -c1-240 | head -12
 if [ $rc -eq 1 ]; then echo "DETECTED ($prop, $tier)"; exit 0; fi
